@@ -3,6 +3,7 @@ package props
 import (
 	"bytes"
 	"context"
+	"errors"
 	"fmt"
 	"io"
 	"os"
@@ -54,16 +55,30 @@ type c13Machine struct {
 	ops         int // From-Root operations executed
 	addsAfterOp bool
 	exts        []string
-	massive     bool // From-Root output and walk steps run with WithMassive
+	massive     bool         // From-Root output and walk steps run with WithMassive
+	massiveOpt  gtree.Option // ONE WithMassive option value, made once and handed to every massive call of the machine (as a caller who builds an option slice once does)
 }
 
+func (m *c13Machine) sharedOpts(base []gtree.Option) []gtree.Option {
+	if !m.massive {
+		return base
+	}
+	if m.massiveOpt == nil {
+		m.massiveOpt = gtree.WithMassive(context.Background())
+	}
+	return append(base, m.massiveOpt)
+}
+
+var errC13Callback = errors.New("verif: c13 callback failure")
+
 type c13History struct {
-	Steps []c13Step `json:"steps"`
+	Steps   []c13Step `json:"steps"`
+	Massive bool      `json:"massive,omitempty"` // output and walk steps use one shared WithMassive option value
 }
 
 func init() {
 	registerReplay("c13", func(h c13History) string {
-		m := &c13Machine{dir: filepath.Join(ops.DefaultEnv.Scratch, "c13replay")}
+		m := &c13Machine{dir: filepath.Join(ops.DefaultEnv.Scratch, "c13replay"), massive: h.Massive}
 		defer os.RemoveAll(m.dir)
 		for i, s := range h.Steps {
 			if msg := m.exec(s); msg != "" {
@@ -261,12 +276,16 @@ func (m *c13Machine) run(s c13Step) string {
 		}
 	}
 	switch s.Kind {
+	case "failwalk":
+		// a call that fails (its callback refuses the first node): it must not change what later calls give
+		err := gtree.WalkFromRoot(root, func(*gtree.WalkerNode) error { return errC13Callback }, m.sharedOpts(nil)...)
+		m.lastOut = fmt.Sprint(err)
+		if err != errC13Callback {
+			return fmt.Sprintf("WalkFromRoot with a callback that fails at once returned %v", err)
+		}
 	case "output":
 		var buf bytes.Buffer
-		if m.massive {
-			opt.Massive = true
-		}
-		if err := gtree.OutputFromRoot(&buf, root, opt.Options(context.Background(), "")...); err != nil {
+		if err := gtree.OutputFromRoot(&buf, root, m.sharedOpts(opt.Options(context.Background(), ""))...); err != nil {
 			return "OutputFromRoot: " + err.Error()
 		}
 		want, _ := model.Render(mf, b)
@@ -287,7 +306,7 @@ func (m *c13Machine) run(s c13Step) string {
 	case "walk", "walkiter":
 		var rows []string
 		if s.Kind == "walk" {
-			if err := gtree.WalkFromRoot(root, func(wn *gtree.WalkerNode) error { rows = append(rows, wn.Row()+"|"+wn.Path()); return nil }, opt.Options(nil, "")...); err != nil {
+			if err := gtree.WalkFromRoot(root, func(wn *gtree.WalkerNode) error { rows = append(rows, wn.Row()+"|"+wn.Path()); return nil }, m.sharedOpts(opt.Options(nil, ""))...); err != nil {
 				return "WalkFromRoot: " + err.Error()
 			}
 		} else {
@@ -387,20 +406,20 @@ func (m *c13Machine) classes() (nontrivial bool, cl []string) {
 	return
 }
 
-var c13Kinds = []string{"output", "output", "json", "walk", "walkiter", "drymkdir", "mkdir", "verify", "itercreate", "iterrange", "iterrange"}
+var c13Kinds = []string{"output", "output", "json", "walk", "walkiter", "drymkdir", "mkdir", "verify", "itercreate", "iterrange", "iterrange", "failwalk"}
 
 // names of the machine: mostly tiny (collisions, merges), sometimes not a path element (legal for output and walk)
 var c13Names = []string{"a", "b", "ab", "ba", "c", "a", "b", "a/b", "..", "x y", "-"}
 
 func TestC13Machine(t *testing.T) {
 	col := coll("C13", "machine")
-	col.Rule = "rapid state machine: NewRoot / Add (any node of any live tree, fresh or existing name) / any From-Root operation (text with drawn branch strings, JSON, walk, iterator walk, dry-run mkdir, real mkdir, strict verify) / OutputFromMarkdown in between / repeat last operation; model forest compared after every step; non-trivial = an Add after a From-Root call followed by another call, or >=2 live trees"
+	col.Rule = "rapid state machine: NewRoot / Add (any node of any live tree, fresh or existing name) / any From-Root operation (text with drawn branch strings, JSON, walk, a walk whose callback fails, iterator walk, dry-run mkdir, real mkdir, strict verify; one machine in four hands ONE WithMassive option value to all its output and walk calls) / OutputFromMarkdown in between / repeat last operation; model forest compared after every step; non-trivial = an Add after a From-Root call followed by another call, or >=2 live trees"
 	rapid.Check(t, func(rt *rapid.T) {
-		m := &c13Machine{dir: filepath.Join(ops.DefaultEnv.Scratch, "c13")}
+		m := &c13Machine{dir: filepath.Join(ops.DefaultEnv.Scratch, "c13"), massive: rapid.IntRange(0, 3).Draw(rt, "massive") == 0}
 		defer os.RemoveAll(m.dir)
 		step := func(s c13Step) {
 			if msg := m.exec(s); msg != "" {
-				violation(rt, "C13", "c13", c13History{Steps: m.hist}, fmt.Sprintf("%s\nhistory: %s", msg, histString(m.hist)))
+				violation(rt, "C13", "c13", c13History{Steps: m.hist, Massive: m.massive}, fmt.Sprintf("%s\nhistory: %s", msg, histString(m.hist)))
 			}
 		}
 		step(c13Step{Kind: "newroot", Tree: 0, Name: sampled(poolTiny).Draw(rt, "root")})
@@ -447,7 +466,10 @@ func TestC13Machine(t *testing.T) {
 			},
 		})
 		nt, cl := m.classes()
-		col.eval(nt, hash64(histString(m.hist)), cl...)
+		if m.massive {
+			cl = append(cl, "shared-massive-option")
+		}
+		col.eval(nt, hash64(histString(m.hist), fmt.Sprint(m.massive)), cl...)
 		col.sample(func() any { return histString(m.hist) })
 	})
 }
@@ -676,7 +698,7 @@ func genC13History(rt *rapid.T, label string, n int) []c13Step {
 			nodes[ti]++ // upper bound; exec ignores out-of-range nodes
 		default:
 			ti := rapid.IntRange(0, len(nodes)-1).Draw(rt, label+"t")
-			steps = append(steps, c13Step{Kind: rapid.SampledFrom([]string{"output", "output", "json", "walk", "walkiter"}).Draw(rt, label+"op"), Tree: ti})
+			steps = append(steps, c13Step{Kind: rapid.SampledFrom([]string{"output", "output", "json", "walk", "walkiter", "failwalk"}).Draw(rt, label+"op"), Tree: ti})
 		}
 	}
 	return steps
